@@ -246,13 +246,7 @@ func runC09(c *eng.Ctx) {
 
 	// ---- 6/7. flush ordering ---------------------------------------------------------------------------------------
 	c.Rule("ORDER", mmT+".Flush{counters<dictionaries}", func() { metaFlushCountersFirst(c) })
-	c.Rule("ORDER", midT+".Flush{postings<series-dictionary}", func() {
-		f := c.Fn(midT + ".Flush")
-		ser := invokeOn(".series", "Flush")
-		for _, d := range []string{".metricInverted", ".forward", ".inverted"} {
-			okOrderInFn(c, f, invokeOn(d, "flush"), ser, "index"+d+".flush", "index.series.Flush")
-		}
-	})
+	c.Rule("ORDER", midT+".Flush{postings<series-dictionary}", func() { indexFlushSeriesLast(c) })
 	for _, h := range []string{"tsdb/memdb.metadataDatabase.handle", "tsdb/memdb.indexDatabase.handle"} {
 		h := h
 		c.Rule("ORDER", h+"{prepare<flush}", func() {
@@ -919,5 +913,15 @@ func metaFlushCountersFirst(c *eng.Ctx) {
 	sync := eng.CallTo(seqT + ".Sync")
 	for _, d := range []string{".ns", ".metric", ".tagValue", ".schemaStore"} {
 		okOrderInFn(c, f, sync, invokeOn(d, "Flush"), "sequence.Sync", "mm"+d+".Flush")
+	}
+}
+
+func indexFlushSeriesLast(c *eng.Ctx) {
+	p := c.P
+	_ = p
+	f := c.Fn(midT + ".Flush")
+	ser := invokeOn(".series", "Flush")
+	for _, d := range []string{".metricInverted", ".forward", ".inverted"} {
+		okOrderInFn(c, f, invokeOn(d, "flush"), ser, "index"+d+".flush", "index.series.Flush")
 	}
 }
